@@ -1,7 +1,7 @@
 (* Real-number lemmas about M_polyline_length.v *)
 From Coq Require Import ZArith Reals Lra Psatz List Bool Lia Arith.
 From PW Require Import Num NumR Vec NpList Result.
-From PW.model Require Import M_polyline_base M_segment M_polyline_nearest M_polyline_length.
+From PW.model Require Import M_polyline_base M_segment M_polyline_nearest M_polyline_length M_polyline_length_spec.
 From PW.proofs Require Import P_vec P_nplist P_segment.
 Import ListNotations.
 Local Open Scope R_scope.
@@ -62,17 +62,6 @@ Proof.
 Qed.
 
 (* ---- the arc-length specification (DESIGN appendix A, over (start, end) segments) ---- *)
-Fixpoint walk (dflt : vec3 R) (segs : list (vec3 R * vec3 R)) (l : R) : vec3 R :=
-  match segs with
-  | [] => dflt
-  | s :: rest =>
-      let len := seg_len ROps s in
-      if Rltb l len then vadd ROps (fst s) (vscale ROps (l / len) (vsub ROps (snd s) (fst s)))
-      else walk (snd s) rest (l - len)
-  end.
-Definition segs_end (dflt : vec3 R) (segs : list (vec3 R * vec3 R)) : vec3 R :=
-  fold_left (fun _ s => snd s) segs dflt.
-
 Lemma walk_past_end segs : forall dflt l, nsum ROps (map (seg_len ROps) segs) <= l -> walk dflt segs l = segs_end dflt segs.
 Proof.
   induction segs as [|s r IH]; intros dflt l H; [reflexivity|].
@@ -138,18 +127,39 @@ Proof.
     rewrite (pap_walk_is_walk (pl_segments pl) 0 (L * f) h p); [f_equal; lra| nra | exact Hp].
 Qed.
 
-Lemma point_along_stacked pl fs : pv pl <> [] -> (forall x, In x fs -> 0 <= x <= 1) ->
+Lemma point_along_stacked pl fs : pl_segments pl <> [] -> (forall x, In x fs -> 0 <= x <= 1) ->
   exists ps, point_along_path ROps pl fs = Ok ps /\ length ps = length fs /\
     forall k f p, nth_error fs k = Some f -> point_along_one ROps pl f = Some p -> nth_error ps k = Some p.
 Proof.
   intros Hv Hr. unfold point_along_path.
   replace (existsb _ fs) with false.
-  - destruct (pv pl) as [|h t] eqn:E; [congruence|].
+  - destruct (pv pl) as [|h t] eqn:E; [exfalso; apply Hv; unfold pl_segments; rewrite E; reflexivity|].
+    destruct fs as [|f0 fs']; [exists []; split; [reflexivity|]; split; [reflexivity|]; intros [|k] f p Hk; discriminate|].
+    destruct (pl_segments pl) as [|s0 sr] eqn:Es; [congruence|].
     eexists. split; [reflexivity|]. split; [apply map_length|].
     intros k f p Hk Hp. rewrite nth_error_map, Hk. cbn. rewrite Hp. reflexivity.
   - symmetry. apply Bool.not_true_is_false. intros H. apply existsb_exists in H. destruct H as [x [Hin Hx]].
     specialize (Hr x Hin). unfold n0, n1 in Hx. rops. apply orb_true_iff in Hx.
     destruct Hx as [Hx|Hx]; apply Rltb_true in Hx; lra.
+Qed.
+(* without any segment (open polyline with one vertex) a non-empty fraction list is refused, as the code does *)
+Lemma point_along_no_segment pl f fs : pl_segments pl = [] -> (forall x, In x (f :: fs) -> 0 <= x <= 1) ->
+  point_along_path ROps pl (f :: fs) = Raise IndexError.
+Proof.
+  intros Hs Hr. unfold point_along_path.
+  replace (existsb _ (f :: fs)) with false.
+  - destruct (pv pl); [reflexivity|]. rewrite Hs. reflexivity.
+  - symmetry. apply Bool.not_true_is_false. intros H. apply existsb_exists in H. destruct H as [x [Hin Hx]].
+    specialize (Hr x Hin). unfold n0, n1 in Hx. rops. apply orb_true_iff in Hx.
+    destruct Hx as [Hx|Hx]; apply Rltb_true in Hx; lra.
+Qed.
+(* f = 1 through the public entry point: the end of the path, whenever there is a segment *)
+Lemma point_along_path_f1 pl h t : pv pl = h :: t -> pl_segments pl <> [] ->
+  point_along_path ROps pl [1] = Ok [if pclosed pl then h else last t h].
+Proof.
+  intros E Hs. unfold point_along_path. cbn [existsb]. unfold n0, n1. rops.
+  destruct (Rltb_spec 1 0); [lra|]. destruct (Rltb_spec 1 1); [lra|]. cbn [orb]. rewrite E.
+  destruct (pl_segments pl) eqn:Es; [congruence|]. cbn [map]. rewrite point_along_f1. unfold path_end. rewrite E. reflexivity.
 Qed.
 
 Lemma point_along_out_of_range pl fs x : In x fs -> (x < 0 \/ 1 < x) -> point_along_path ROps pl fs = Raise ValueError.
